@@ -273,6 +273,31 @@ func (f *c02File) modelBlocks() string {
 	return sb.String()
 }
 
+// has64k: some member holds the largest legal payload, 65536 bytes (outside the Lean model's WF: payload < 65536).
+func (f *c02File) has64k() bool {
+	for _, n := range f.blen {
+		if n > 0xffff {
+			return true
+		}
+	}
+	return false
+}
+
+// endAfter is the exact End the property demands after a read that delivered the bytes up to logical position q
+// (q > 0, no EOF involved): the block that holds byte q-1 and the offset behind that byte; behind the last byte of
+// a 65536-byte block there is no such offset and the position is the start of the next member.
+func (f *c02File) endAfter(q int) (bgzf.Offset, bool) {
+	for i := range f.start {
+		if f.blen[i] > 0 && f.start[i] < q && q <= f.start[i]+f.blen[i] {
+			if k := q - f.start[i]; k <= 0xffff {
+				return bgzf.Offset{File: f.base[i], Block: uint16(k)}, true
+			}
+			return bgzf.Offset{File: f.base[i] + int64(f.csize[i])}, true
+		}
+	}
+	return bgzf.Offset{}, false
+}
+
 // translate is the oracle's reading of a virtual offset: block start + in-block offset, or the end of
 // the file for (fileLen, 0).
 func (f *c02File) translate(o bgzf.Offset) (int, bool) {
@@ -480,6 +505,9 @@ func genC02History(rnd *Rand, f *c02File, maxOps int) []c02Op {
 				}
 			default:
 				op.Block, op.Class = rnd.intn(f.blen[i]+1), "seek.random"
+			}
+			if op.Block > 0xffff { // Offset.Block is a uint16: the end of a 65536-byte block has no in-block offset
+				op.Block, op.Class = 0xffff, op.Class+".max-in-block"
 			}
 			if lastEOF {
 				op.Class += ".afterEOF"
@@ -747,6 +775,9 @@ func runC02(c *ctx, f *c02File, ops []c02Op, rd int, slow bool, procs int) []str
 				if p, ok := f.translate(lc.End); !ok || p != pos+len(exp) {
 					r.fail("c02.lastchunk.end."+bm, fmt.Sprintf("%s: End %v translates to %d (valid=%v), position after the bytes is %d", what, lc.End, p, ok, pos+len(exp)), in())
 				}
+				if want, ok := f.endAfter(pos + len(exp)); ok && e == nil && len(exp) > 0 && lc.End != want {
+					r.fail("c02.lastchunk.end.exact."+bm, fmt.Sprintf("%s: End %v, the offset behind the last byte returned is %v", what, lc.End, want), in())
+				}
 				if _, ok := f.offsetOf(pos); ok && len(exp) > 0 {
 					// Begin must be a seekable offset: a block start plus an offset inside that block
 					found := false
@@ -853,6 +884,7 @@ func checkC02(c *ctx) {
 		line int
 		rd   int
 		impl []string
+		flat bool
 	}
 	var runs []run
 	procsList := []int{1, 4, 16}
@@ -861,7 +893,7 @@ func checkC02(c *ctx) {
 		runtime.GOMAXPROCS(procs)
 		f := genC02File(c.rnd)
 		if h%10 == 9 {
-			f = genC02ExtremeFile(c.rnd, false) // hand-framed members at the limits of the format (payload <= 65535)
+			f = genC02ExtremeFile(c.rnd, true) // hand-framed members at the limits of the format, incl. payload 65536
 		}
 		if err := f.build(); err != nil {
 			r.fail("c02.build", err.Error(), c02Input{File: c02File{Blocks: f.Blocks}})
@@ -870,7 +902,14 @@ func checkC02(c *ctx) {
 		ops := genC02History(c.rnd, f, 40)
 		blocks, opsM := f.modelBlocks(), c02OpsModel(ops)
 		li := d.add("c02.run %s %s", blocks, opsM)
-		d.add("c02.flat %s %s", blocks, opsM)
+		withFlat := !f.has64k()
+		if withFlat {
+			d.add("c02.flat %s %s", blocks, opsM)
+		} else {
+			// a member of 65536 payload bytes is outside the flat specification's and the theorems' domain (WF: payload
+			// < 65536): compared with the executable reader model (run64, repaired txOffset) and judged by the oracle
+			r.hist("flatspec-comparison.skipped.payload65536")
+		}
 		// classification
 		hasSeek, touches := false, false
 		t := &flatTracker{f: f}
@@ -927,7 +966,7 @@ func checkC02(c *ctx) {
 				r.hist("reader.raw")
 			}
 			impl := runC02(c, f, ops, rd, slow, procs)
-			runs = append(runs, run{li, rd, impl})
+			runs = append(runs, run{li, rd, impl, withFlat})
 			r.eval(fmt.Sprintf("%s|%s|%d", blocks, opsM, rd), hasSeek && touches)
 		}
 		if h%2 == 0 {
@@ -979,8 +1018,11 @@ func checkC02(c *ctx) {
 	}
 	r.note("trace inclusion (Hts.Model.ReadAhead): %d read-ahead runs, %d events (%d member loads) replayed", len(c02LtsCases), nev, nld)
 	for _, ru := range runs {
-		r.ModelOps += 2 * len(ru.impl)
+		r.ModelOps += len(ru.impl)
 		c02Compare(r, fmt.Sprintf("C02.model.rd%d", ru.rd), d.lines[ru.line], ru.impl, model[ru.line], false)
-		c02Compare(r, fmt.Sprintf("C02.flatspec.rd%d", ru.rd), d.lines[ru.line+1], ru.impl, model[ru.line+1], true)
+		if ru.flat {
+			r.ModelOps += len(ru.impl)
+			c02Compare(r, fmt.Sprintf("C02.flatspec.rd%d", ru.rd), d.lines[ru.line+1], ru.impl, model[ru.line+1], true)
+		}
 	}
 }
